@@ -710,11 +710,6 @@ func (c *Conn) handleRcpt(arg string) {
 		return
 	}
 
-	if c.server.MaxRecipients > 0 && len(c.recipients) >= c.server.MaxRecipients {
-		c.writeResponse(452, EnhancedCode{4, 5, 3}, fmt.Sprintf("Maximum limit of %v recipients reached", c.server.MaxRecipients))
-		return
-	}
-
 	args, err := parseArgs(p.s)
 	if err != nil {
 		c.writeResponse(501, EnhancedCode{5, 5, 4}, "Unable to parse RCPT ESMTP parameters")
@@ -767,6 +762,13 @@ func (c *Conn) handleRcpt(arg string) {
 			c.writeResponse(500, EnhancedCode{5, 5, 4}, "Unknown RCPT TO argument")
 			return
 		}
+	}
+
+	// (checked only now: a command that is malformed is refused as such, 5xx,
+	// whether or not there would have been room for one more recipient)
+	if c.server.MaxRecipients > 0 && len(c.recipients) >= c.server.MaxRecipients {
+		c.writeResponse(452, EnhancedCode{4, 5, 3}, fmt.Sprintf("Maximum limit of %v recipients reached", c.server.MaxRecipients))
+		return
 	}
 
 	if err := c.Session().Rcpt(recipient, opts); err != nil {
